@@ -87,10 +87,9 @@ theorem selData_nil_of_not_mem (c : Cfg) (ws : List (Option Wr)) (a : Nat) (h : 
       have hne : ¬ w.addr = a := fun e => h.1 e.symm
       simp [selData, selBit, hne, ih h.2]
 
-theorem selData_eq (c : Cfg) (hg : c.gran = false) (ws : List (Option Wr)) (a : Nat)
-    (hd : distinctRows ws = true) :
+theorem selData_eq (c : Cfg) (ws : List (Option Wr)) (a : Nat) (hd : distinctRows ws = true) :
     selData c ws a = match wrTo ws a with
-      | some w => [w.data]
+      | some w => if selBit c a w then [busData c w] else []
       | none => [] := by
   induction ws with
   | nil => rfl
@@ -104,26 +103,72 @@ theorem selData_eq (c : Cfg) (hg : c.gran = false) (ws : List (Option Wr)) (a : 
       rw [wrAddrs_cons_some, List.nodup_cons] at hd
       by_cases ha : w.addr = a
       · subst ha
-        simp [selData, selBit, hg, wrTo, selData_nil_of_not_mem c ws w.addr hd.1]
-      · simp [selData, selBit, ha, wrTo, ih hd.2]
+        by_cases hs : selBit c w.addr w = true <;>
+          simp [selData, hs, wrTo, selData_nil_of_not_mem c ws w.addr hd.1]
+      · have hs : selBit c a w = false := by simp [selBit, ha]
+        simp [selData, hs, ha, wrTo, ih hd.2]
 
-/-- without granularity and with distinct write rows, the tracking multiplexer applied to the
-    current row yields the row after this cycle's writes -/
-theorem track_eq (c : Cfg) (hg : c.gran = false) (mem : Mem) (ws : List (Option Wr)) (a : Nat)
-    (hd : distinctRows ws = true) (ha : a < mem.length) :
+/-- the complement of the open finding F5 as far as the write tracking is concerned: no
+    granularity, or a single chunk per word (the enable is one bit wide) -/
+def TrackOk (c : Cfg) : Prop := c.gran = false ∨ c.n = 1
+
+instance (c : Cfg) : Decidable (TrackOk c) := by unfold TrackOk; exact inferInstance
+
+/-- every row is within the word width (only meaningful with granularity, where the model knows it) -/
+def MemRange (c : Cfg) (mem : Mem) : Prop := c.gran = true → ∀ a, rd mem a < 2 ^ (c.g * c.n)
+
+/-- without granularity, or with a single chunk per word, and with distinct write rows, the
+    tracking multiplexer applied to the current row yields the row after this cycle's writes -/
+theorem track_eq (c : Cfg) (hg : TrackOk c) (mem : Mem) (ws : List (Option Wr)) (a : Nat)
+    (hd : distinctRows ws = true) (ha : a < mem.length) (hr : MemRange c mem) :
     track c ws a (rd mem a) = rd (memNext c mem ws) a := by
   unfold track memNext
-  rw [rd_wrAll _ _ _ _ hd, selData_eq c hg ws a hd]
+  rw [rd_wrAll _ _ _ _ hd, selData_eq c ws a hd]
   simp only [ha, if_true]
-  cases wrTo ws a with
+  cases hw : wrTo ws a with
   | none => rfl
-  | some w => simp [applyTo, rowAfter, hg]
+  | some w =>
+    have haddr : w.addr = a := by
+      clear hr hg ha
+      induction ws with
+      | nil => simp [wrTo] at hw
+      | cons o ws ih =>
+        simp only [distinctRows, decide_eq_true_eq] at hd ih
+        cases o with
+        | none => rw [wrAddrs_cons_none] at hd; exact ih hd (by simpa [wrTo] using hw)
+        | some w' =>
+          rw [wrAddrs_cons_some, List.nodup_cons] at hd
+          by_cases h : w'.addr = a
+          · simp [wrTo, h] at hw; rw [← hw]; exact h
+          · simp [wrTo, h] at hw; exact ih hd.2 hw
+    cases hgr : c.gran with
+    | false => simp [applyTo, rowAfter, selBit, busData, hgr, haddr]
+    | true =>
+      have hn : c.n = 1 := by rcases hg with h | h; rw [hgr] at h; cases h; exact h
+      have hlt := hr hgr a
+      rw [hn, Nat.mul_one] at hlt
+      simp only [applyTo, rowAfter, hgr, if_true, mergeW, hn, merge_one _ _ _ _ hlt, selBit, busData, haddr,
+        beq_self_eq_true, Bool.and_true, Nat.mul_one]
+      by_cases hm : w.mask.testBit 0 = true <;> simp [hm]
 
+/-- the memory stays within the word width -/
+theorem memRange_next (c : Cfg) (mem : Mem) (ws : List (Option Wr)) (hd : distinctRows ws = true)
+    (hr : MemRange c mem) : MemRange c (memNext c mem ws) := by
+  intro hgr a
+  unfold memNext
+  rw [rd_wrAll _ _ _ _ hd]
+  split
+  · cases wrTo ws a with
+    | none => exact hr hgr a
+    | some w =>
+      simp only [applyTo, rowAfter, hgr, if_true, mergeW]
+      exact merge_lt _ _ _ _ _ (hr hgr a)
+  · exact Nat.two_pow_pos _
 
 /-! ### one port, one cycle -/
 
 theorem port_refines (c : Cfg) (mem : Mem) (ws : List (Option Wr)) (p : Port) (a : Option Nat) (b : Bool)
-    (hF5 : c.gran = false ∨ c.readOnResp = false)
+    (hF5 : TrackOk c ∨ c.readOnResp = false) (hr : MemRange c mem)
     (hd : distinctRows ws = true) (ha : ∀ x, a = some x → x < mem.length) (hi : InvP c mem p) :
     specPort c mem (memNext c mem ws) (absPort c p) a b =
       (absPort c (portStep c mem ws p a b).1, (portStep c mem ws p a b).2) ∧
@@ -134,12 +179,12 @@ theorem port_refines (c : Cfg) (mem : Mem) (ws : List (Option Wr)) (p : Port) (a
     fun x hx => rdT_eq _ _ _ _ hx
   have hron : c.readOnResp = true → p.rov = true → track c ws p.roa p.rd = rd (memNext c mem ws) p.roa := by
     intro hR hv
-    have hg : c.gran = false := by rcases hF5 with h | h; exact h; rw [hR] at h; cases h
-    rw [i4 hR hv]; exact track_eq c hg mem ws p.roa hd (i2 hv)
+    have hg : TrackOk c := by rcases hF5 with h | h; exact h; rw [hR] at h; cases h
+    rw [i4 hR hv]; exact track_eq c hg mem ws p.roa hd (i2 hv) hr
   have hon : c.readOnResp = true → p.ov = true → track c ws p.oa p.od = rd (memNext c mem ws) p.oa := by
     intro hR hv
-    have hg : c.gran = false := by rcases hF5 with h | h; exact h; rw [hR] at h; cases h
-    rw [i5 hR hv]; exact track_eq c hg mem ws p.oa hd (i3 hv)
+    have hg : TrackOk c := by rcases hF5 with h | h; exact h; rw [hR] at h; cases h
+    rw [i5 hR hv]; exact track_eq c hg mem ws p.oa hd (i3 hv) hr
   generalize memNext c mem ws = mem' at *
   rcases p with ⟨rov, roa, rdv, ov, oa, od⟩
   simp only at i1 i2 i3 i4 i5 hron hon
@@ -157,7 +202,7 @@ theorem port_refines (c : Cfg) (mem : Mem) (ws : List (Option Wr)) (p : Port) (a
 def abs (c : Cfg) (s : State) : SpecState := { mem := s.mem, qs := s.ports.map (absPort c) }
 
 def Inv (c : Cfg) (s : State) : Prop :=
-  s.mem.length = c.depth ∧ ∀ p ∈ s.ports, InvP c s.mem p
+  s.mem.length = c.depth ∧ MemRange c s.mem ∧ ∀ p ∈ s.ports, InvP c s.mem p
 
 /-- every requested address is a row of the memory -/
 def reqsInRange (c : Cfg) (i : In) : Bool :=
@@ -187,7 +232,7 @@ theorem reqAt_lt (c : Cfg) (i : In) (hw : WfIn c i) (k x : Nat) (h : reqAt i k =
   · cases h
 
 theorem step_refines (c : Cfg) (s : State) (i : In)
-    (hF5 : c.gran = false ∨ c.readOnResp = false) (hw : WfIn c i) (hi : Inv c s) :
+    (hF5 : TrackOk c ∨ c.readOnResp = false) (hw : WfIn c i) (hi : Inv c s) :
     specStep c (abs c s) i = (abs c (step c s i).1, (step c s i).2) ∧ Inv c (step c s i).1 := by
   have hp : ∀ k p, s.ports[k]? = some p →
       specPort c s.mem (memNext c s.mem i.writes) (absPort c p) (reqAt i k) (respAt i k) =
@@ -195,9 +240,9 @@ theorem step_refines (c : Cfg) (s : State) (i : In)
           (portStep c s.mem i.writes p (reqAt i k) (respAt i k)).2) ∧
       InvP c (memNext c s.mem i.writes) (portStep c s.mem i.writes p (reqAt i k) (respAt i k)).1 := by
     intro k p hk
-    exact port_refines c s.mem i.writes p (reqAt i k) (respAt i k) hF5 hw.1
-      (fun x hx => by rw [hi.1]; exact reqAt_lt c i hw k x hx) (hi.2 p (List.mem_of_getElem? hk))
-  refine ⟨?_, ?_, ?_⟩
+    exact port_refines c s.mem i.writes p (reqAt i k) (respAt i k) hF5 hi.2.1 hw.1
+      (fun x hx => by rw [hi.1]; exact reqAt_lt c i hw k x hx) (hi.2.2 p (List.mem_of_getElem? hk))
+  refine ⟨?_, ?_, ?_, ?_⟩
   · simp only [specStep, step, abs]
     congr 1
     · congr 1
@@ -215,6 +260,7 @@ theorem step_refines (c : Cfg) (s : State) (i : In)
       | none => rfl
       | some p => simp only [Option.map_some]; rw [(hp k p hk).1]
   · simp only [step, memNext, length_wrAll]; exact hi.1
+  · exact memRange_next c s.mem i.writes hw.1 hi.2.1
   · intro p' hp'
     simp only [step] at hp'
     obtain ⟨k, hk⟩ := List.getElem?_of_mem hp'
@@ -227,7 +273,12 @@ theorem step_refines (c : Cfg) (s : State) (i : In)
       exact (hp k p hs).2
 
 theorem init_inv (c : Cfg) (rp : Nat) : Inv c (init c rp) ∧ abs c (init c rp) = specInit c rp := by
-  refine ⟨⟨by simp [init], ?_⟩, ?_⟩
+  refine ⟨⟨by simp [init], ?_, ?_⟩, ?_⟩
+  · intro _ a
+    have : rd (init c rp).mem a = 0 := by
+      simp only [init, rd, List.getElem?_replicate]
+      split <;> rename_i h <;> split at h <;> simp_all
+    rw [this]; exact Nat.two_pow_pos _
   · intro p hp
     simp only [init, List.mem_replicate] at hp
     rw [hp.2]
@@ -241,7 +292,7 @@ instance (c : Cfg) (hist : List In) : Decidable (WfHist c hist) := by
   unfold WfHist; exact inferInstance
 
 theorem run_refines (c : Cfg) (s : State) (hist : List In)
-    (hF5 : c.gran = false ∨ c.readOnResp = false) (hw : WfHist c hist) (hi : Inv c s) :
+    (hF5 : TrackOk c ∨ c.readOnResp = false) (hw : WfHist c hist) (hi : Inv c s) :
     (specRun c (abs c s) hist).2 = (run c s hist).2 ∧
     (specRun c (abs c s) hist).1 = abs c (run c s hist).1 ∧ Inv c (run c s hist).1 := by
   induction hist generalizing s with
